@@ -243,12 +243,14 @@ def decompose_and_order(graph, component, component_name, bo_start=0):
             scaffold_graph.add_edge(node1, "+", node2, "+", 0)
 
         else:
-            bubble_index = len(bubbles)
+            # bubbles are named with a tab, which cannot occur in a GFA segment name,
+            # so that a bubble can never be confused with a (numeric) node id
+            bubble_name = "bubble\t" + str(len(bubbles))
             bubbles.append(bc_inside_nodes)
-            scaffold_graph.add_node(str(bubble_index))
-            scaffold_node_types[str(bubble_index)] = "b"
+            scaffold_graph.add_node(bubble_name)
+            scaffold_node_types[bubble_name] = "b"
             for end_node in bc_end_nodes:
-                scaffold_graph.add_edge(str(bubble_index), "+", end_node, "+", 0)
+                scaffold_graph.add_edge(bubble_name, "+", end_node, "+", 0)
 
     logger.info(f"  Bubbles: {len(bubbles)}")
     logger.info(f"  Scaffold graph: {len(scaffold_graph)} nodes")
@@ -299,7 +301,7 @@ def decompose_and_order(graph, component, component_name, bo_start=0):
         if node_type == "s":
             node_order[node] = (bo, 0)
         elif node_type == "b":
-            for i, n in enumerate(sorted(bubbles[int(node)])):
+            for i, n in enumerate(sorted(bubbles[int(node.split("\t")[1])])):
                 node_order[n] = (bo, i + 1)
         else:
             assert False
